@@ -143,6 +143,13 @@ func newValueEnv() (*env.Env, map[string]reflect.Value, error) {
 	if err := e.DefineType("S", tS); err != nil {
 		return nil, nil, err
 	}
+	for _, sv := range scriptVals {
+		if sv.Go {
+			if err := e.Define(sv.Name, sv.Want); err != nil {
+				return nil, nil, err
+			}
+		}
+	}
 	if _, err, p := execScript(e, prelude()); err != nil || p != "" {
 		return nil, nil, fmt.Errorf("prelude failed: err=%v panic=%s", err, p)
 	}
